@@ -277,7 +277,7 @@ def gen_dro_sep(rng, cfg):
             add({'op': 'supp', 'amb': an, 'scen': sc, 'set': ref.set_constraints(blocks, zs), 'blocks': blocks},
                 [sa] + list(s_z.values()), role='supp', anchor=sa)
         P = gen_probset(rng, S)
-        add({'op': 'prob', 'amb': an, 'set': ref.prob_constraints('m.p', P)}, [sa], role='prob')
+        add({'op': 'prob', 'amb': an, 'set': ref.prob_constraints('m.p', P)}, [sa], role='prob', late=rng.random() < 0.5)
         ambs[an] = {'supports': supports, 'P': P, 'moments': []}
         if moment_mode:
             nz_ = zs['z']
@@ -318,7 +318,7 @@ def gen_dro_sep(rng, cfg):
                         ref.worst_case_expectation_moments(P, boxes, [0.0] * nz_, ambs[an]['moments'] + [(ev, mlo, mhi)])
                 except RuntimeError:
                     continue
-                add({'op': 'expt', 'amb': an, 'scen': sc, 'set': cs}, [sa] + list(s_z.values()), role='expt')
+                add({'op': 'expt', 'amb': an, 'scen': sc, 'set': cs}, [sa] + list(s_z.values()), role='expt', late=rng.random() < 0.5)
                 ambs[an]['moments'].append((ev, mlo, mhi))
             ambs[an]['boxes'] = boxes
 
@@ -546,7 +546,74 @@ def gen_dro_gen(rng, cfg):
             'steps': steps, 'expect': {'opt': c['expect']['opt']}, 'xnames': ['t'], 'pool': c['pool']}
 
 
-FAMILIES = {'ro-sep': gen_ro_sep, 'dro-sep': gen_dro_sep, 'ro-gen': gen_ro_gen, 'dro-gen': gen_dro_gen}
+def gen_front(rng, cfg):
+    """stand-alone lp / socp / gcp front-end models (generator shared with M-PEER): constraints are added one by one,
+    with formulate / solve events in between; differential oracles only."""
+    from machines import peer
+    while True:
+        prog = peer.gen_program(rng, {})
+        if prog['variant'] == 'feasible':
+            break
+    cls = prog['cls']
+    kind = {'LP': rng.choice(['lp', 'socp', 'gcp']), 'MILP': rng.choice(['lp', 'socp', 'gcp']),
+            'SOCP': rng.choice(['socp', 'gcp']), 'MISOCP': rng.choice(['socp', 'gcp']), 'EXP': 'gcp'}[cls]
+    cone = {'LP': 'lp', 'MILP': 'lp', 'SOCP': 'soc', 'MISOCP': 'soc', 'EXP': 'exp'}[cls]
+    steps = []
+
+    def add(op, deps, **kw):
+        s_ = {'sid': 's%d' % (len(steps) + 1), 'op': op, 'deps': sorted(deps)}
+        s_.update(kw)
+        steps.append(s_)
+        return s_['sid']
+    s_m = add({'op': 'model', 'id': 'm', 'kind': kind}, [])
+    dv = {}
+    cons = {}
+    for op in prog['ops']:
+        if op['op'] == 'dvar':
+            dv[op['id']] = add(dict(op), [s_m])
+        elif op['op'] == 'cons':
+            cons[op['id']] = op
+    s_obj = None
+    for op in prog['ops']:
+        if op['op'] == 'obj':
+            s_obj = add(dict(op), list(dv.values()), role='obj')
+    from sim.astx import names_in
+    for cid, op in cons.items():
+        names = sorted(names_in(op['e']))
+        deps = [dv[n_] for n_ in names]
+        lhs = op['e'][1]
+        is_bound = (lhs[0] == 'v' or (lhs[0] == 'i' and lhs[1][0] == 'v')) and op['e'][2][0] == 'c' and op['e'][0] in ('<=', '>=', '==')
+        s_c = add(dict(op), deps, role='bound' if is_bound else 'cons')
+        if is_bound:
+            add({'op': 'st', 'm': 'm', 'ids': [cid], 'aslist': True}, [s_c], role='bound', anchor=dv[names[0]])
+        else:
+            add({'op': 'st', 'm': 'm', 'ids': [cid], 'aslist': True}, [s_c], role='st')
+    # piecewise-linear atoms (they allocate auxiliary columns even in the plain LP front end) and a late extra variable
+    n_x = [o for o in prog['ops'] if o['op'] == 'dvar' and o['id'] == 'x'][0]['shape'][0]
+    for k_ in range(rng.randint(1, 2)):
+        at = rng.choice(['abs', 'n1', 'ninf'])
+        xe = ['v', 'x']
+        if at == 'abs':
+            e = ['<=', ['f', 'abs', xe], ['c', [gen.r2(rng, 6, 9) for _ in range(n_x)]]]
+        else:
+            e = ['<=', ['norm', xe, 1 if at == 'n1' else 'inf'], ['c', gen.r2(rng, 12, 20)]]
+        s_c = add({'op': 'cons', 'id': 'pw%d' % k_, 'e': e}, [dv['x']], role='cons')
+        add({'op': 'st', 'm': 'm', 'ids': ['pw%d' % k_], 'aslist': True}, [s_c], role='st')
+    if rng.random() < 0.6:
+        vt = rng.choice(['C', 'C', 'I']) if cone != 'exp' else 'C'
+        s_u = add({'op': 'dvar', 'id': 'u', 'm': 'm', 'shape': [rng.randint(1, 2)], 'vtype': vt}, [s_m], late=True)
+        add({'op': 'cons', 'id': 'bu1', 'e': ['<=', ['v', 'u'], ['c', 5.0]]}, [s_u], late=True, role='bound')
+        add({'op': 'cons', 'id': 'bu2', 'e': ['>=', ['v', 'u'], ['c', 0.0]]}, [s_u], late=True, role='bound')
+        add({'op': 'st', 'm': 'm', 'ids': ['bu1', 'bu2'], 'aslist': True}, [steps[-2]['sid'], steps[-1]['sid']], late=True,
+            role='bound', anchor=s_u)
+        if vt != 'C':
+            cls = 'MILP' if cone == 'lp' else 'MISOCP'
+    ints = cls in ('MILP', 'MISOCP')
+    return {'family': 'front-' + kind, 'model': 'm', 'cone': cone, 'ints': ints, 'zs': {}, 'steps': steps, 'expect': None,
+            'xnames': ['x'], 'pool': solver_pool(cone, ints)}
+
+
+FAMILIES = {'ro-sep': gen_ro_sep, 'dro-sep': gen_dro_sep, 'ro-gen': gen_ro_gen, 'dro-gen': gen_dro_gen, 'front': gen_front}
 
 
 # ==================================================================================================
@@ -641,6 +708,12 @@ def gen_schedule(rng, decl, bias, cfg):
     nev = 0
     formulated = False
     for st in order:
+        if st.get('role') in ('prob', 'expt') and bias != 'canonical' and _solvable(done, decl) and rng.random() < 0.5:
+            # a refinement of an ambiguity set that arrives after the model was already formulated / solved
+            nev += 1
+            ops.append(rng.choice([{'op': 'formulate', 'm': decl['model'], 'primal': True, 'env': 1},
+                                   {'op': 'formulate', 'm': decl['model'], 'primal': False, 'env': 1},
+                                   {'op': 'solve', 'm': decl['model'], 'solver': rng.choice(pool), 'env': 1, 'display': False}]))
         op = dict(st['op'])
         op['sid'] = st['sid']
         ops.append(op)
@@ -653,7 +726,9 @@ def gen_schedule(rng, decl, bias, cfg):
             ok = _solvable(done, decl)
             kinds = ['noise', 'noise', 'gc', 'export']
             if ok:
-                kinds += ['solve', 'solve', 'solve', 'formulate', 'dual', 'soc_solve']
+                kinds += ['solve', 'solve', 'solve', 'formulate', 'dual']
+                if not decl['family'].startswith('front') or decl['family'] == 'front-gcp':
+                    kinds.append('soc_solve')          # lp.Model / socp.Model have no soc_solve
             k = rng.choice(kinds)
             if k == 'noise':
                 nz = gen_noise(rng, decl, declared, nnoise)
@@ -763,6 +838,8 @@ def tags_of(ops):
             tags.add('solve_after_soc_solve')
         if k == 'formulate' and not op.get('primal', True):
             tags.add('dual_formulated')
+        if k in ('prob', 'expt') and formulated:
+            tags.add('ambiguity_refined_after_formulation')
         if k == 'dvar' and formulated:
             tags.add('dvar_after_formulation')
             if op.get('vtype', 'C') != 'C':
